@@ -12,6 +12,8 @@ CHECK = 'c01_check'
 SHOW = 'c01_show'
 RULE = ('cases = (table, back-end, operator, argument set, base set or None, by index / by name); '
         'random structured tables up to 8x8 (quick) / 12x12 (thorough) plus the small exhaustive scope; '
+        'listings with a repeated entry (non-monotone operators) and rename histories (context built under '
+        'other names, by-name warm-up queries, names re-assigned through the public setters, then the query); '
         'non-trivial = table not constant, argument set proper and non-empty, base set given')
 EXHAUSTIVE = {'thorough': 'all tables of shape <= 2x2, 2x3, 3x2 x all argument subsets x bases '
                           '{None, [], all ordered subsets of size <= 2} x 4 index operators x 3 back-ends'}
